@@ -123,6 +123,7 @@ BASE = [
     ('base-custom', "class Stop(BaseException):\n    pass\nraise Stop('base')"), ('base-BaseException', "raise BaseException('b')"),
 ]
 OKAY = [
+    ('ok-sets-a-trace-function', "import sys\nsys.settrace(lambda *a: None)\nx = 1"),
     ('ok-print', "print('fine')"), ('ok-silent', "x = 1"), ('ok-input', "v = input('p')\nprint(v)"),
     ('ok-import', "import json\nimport string\nprint(json.dumps([1]))"), ('ok-handled', "try:\n    1 / 0\nexcept ZeroDivisionError:\n    print('handled')"),
     ('ok-stdout-closed', "import sys\nprint('said')\nsys.stdout.close()"), ('ok-stdout-reassigned', "import sys, io\nsys.stdout = io.StringIO()\nprint('lost')"),
@@ -309,6 +310,7 @@ def reference(files, entry, inputs, call_args=()):
     buf = io.StringIO()
     real_sleep = time.sleep
     real_modules = sys.modules
+    real_trace = sys.gettrace()
     try:
         time.sleep = lambda *a, **k: None
         with contextlib.redirect_stdout(buf):
@@ -331,6 +333,8 @@ def reference(files, entry, inputs, call_args=()):
     finally:
         time.sleep = real_sleep
         sys.modules = real_modules          # (the reference run is the real thing: whatever the body rebinds is rebound for real)
+        if sys.gettrace() is not real_trace:
+            sys.settrace(real_trace)        # (... and a trace function it sets is set in this very thread)
     r.output = buf.getvalue() if not buf.closed else ''
     return r
 
@@ -680,6 +684,10 @@ def _measured(ctx, which, case, sandbox, report, files, inputs, n_rt_before):
     if which == 'C05':
         ctx.count('state_comparisons')
         for what, detail in diffs:
+            if what == 'sys.gettrace' and tracer == 'none' and mode == 'ok-sets-a-trace-function':
+                # (the statement speaks of the trace function when tracing is enabled; without a tracer pedal does not touch it)
+                ctx.count('gettrace_not_judged_no_tracer_and_the_program_set_one')
+                continue
             if what == 'sys.gettrace' and envname.endswith('outer-trace') and mode.startswith('RecursionError'):
                 # CPython itself removes a trace function that raises, and the harness's own trace function raises
                 # RecursionError when the student's recursion exhausts the stack: not pedal's doing
@@ -998,6 +1006,8 @@ def sequences(ctx, which, n=None):
             ctx.count('state_comparisons')
             ctx.count('sequence_steps')
             for what, detail in diffs:
+                if what == 'sys.gettrace' and tracer == 'none' and m['mode'] == 'ok-sets-a-trace-function':
+                    continue        # (no tracer: pedal does not touch the trace function, and the statement does not ask it to)
                 ctx.violation('C05|not-restored|%s|after-%s|%s' % (what, termination_class(m['kind'], m['mode'], raised),
                                                                    'raised' if raised else 'returned'),
                               {'sequence': names[:], 'tracer': tracer}, {'what': what, 'detail': detail})
@@ -1206,6 +1216,8 @@ def replay(ctx, which, case):
             except BaseException as e:
                 raised = e
             for what, detail in snap.diff(sandbox):
+                if what == 'sys.gettrace' and case.get('tracer', 'none') == 'none' and m['mode'] == 'ok-sets-a-trace-function':
+                    continue
                 ctx.violation('C05|not-restored|%s|after-%s|%s' % (what, termination_class(m['kind'], m['mode'], raised),
                                                                    'raised' if raised else 'returned'),
                               {'sequence': names[:], 'tracer': case.get('tracer', 'none')}, {'what': what, 'detail': detail})
